@@ -751,6 +751,38 @@ def oracle_jobs(ctx):
                 kw.pop('diff_order', None)
                 kw['lam'] = 10.0
             add(name, rng.choice([40, 64]), kw, 'pspline')
+    # H. methods that solve internally on behalf of another method (optimizers / wrappers): every params entry is
+    #    compared, with and without the optional output smoothing, truncation, resampling
+    inner = {'asls': {'lam': 1e3, 'max_iter': 3, 'tol': 0.0}, 'arpls': {'lam': 1e3, 'max_iter': 3, 'tol': 0.0},
+             'airpls': {'lam': 1e3, 'max_iter': 3, 'tol': 0.0}, 'iasls': {'lam': 1e3, 'max_iter': 3, 'tol': 0.0},
+             'poly': {'poly_order': 2}, 'modpoly': {'poly_order': 2}, 'imodpoly': {'poly_order': 2},
+             'snip': {'max_half_window': 5}, 'mor': {'half_window': 4},
+             'pspline_asls': {'num_knots': 8, 'lam': 10, 'max_iter': 3, 'tol': 0.0},
+             'pspline_arpls': {'num_knots': 8, 'lam': 10, 'max_iter': 3, 'tol': 0.0}}
+    nrep = ctx.n(1, 3)
+    for _ in range(nrep):
+        for m in ('asls', 'poly', 'snip', 'arpls', 'mor', 'pspline_asls'):
+            # always: the setting in which every backend (pentapy included) can take part and nothing is truncated
+            add('custom_bc', rng.choice([48, 64]), {'method': m, 'method_kwargs': dict(inner[m]),
+                                                    'lam': rng.choice([5.0, 1e2, 1e4]), 'sampling': 1, 'diff_order': 2}, 'wrapper')
+            if rng.random() < 0.35:
+                jobs.append(dict(jobs[-1], id=f'o{len(jobs)}', tag='wrapper-functional', functional=True, bs_list=[2]))
+            # and a random variation
+            kw = {'method': m, 'method_kwargs': dict(inner[m]), 'lam': rng.choice([None, 5.0, 1e3]), 'sampling': rng.choice([1, 2, 3]),
+                  'diff_order': rng.choice([1, 2, 3])}
+            if rng.random() < 0.4:
+                kw['regions'] = [[None, rng.randint(10, 20)], [rng.randint(30, 40), None]]
+            add('custom_bc', rng.choice([48, 64]), kw, 'wrapper')
+        for m in ('asls', 'arpls', 'poly', 'pspline_asls'):
+            add('optimize_extended_range', rng.choice([48, 64]),
+                {'method': m, 'method_kwargs': {k: v for k, v in inner[m].items() if k not in ('lam', 'poly_order')},
+                 'side': rng.choice(['both', 'left', 'right']), 'min_value': 2, 'max_value': 4}, 'wrapper')
+        for m in ('asls', 'arpls', 'airpls', 'iasls', 'pspline_arpls'):
+            add('collab_pls', rng.choice([48, 64]), {'method': m, 'method_kwargs': dict(inner[m]),
+                                                    'average_dataset': rng.choice([True, False])}, 'wrapper')
+        for m in ('modpoly', 'imodpoly'):
+            add('adaptive_minmax', rng.choice([48, 64]), {'method': m, 'poly_order': rng.choice([None, 2, [1, 3]]),
+                                                         'constrained_fraction': rng.choice([0.01, 0.1])}, 'wrapper')
     # G. data kinds: large pedestals (relative to the noise), extreme overall scales, integer counts -- for every
     #    method that reaches an optionally compiled kernel (see expected_jit_functions in coq/C10/Sites.v) or a solver.
     #    A fallback that is only algebraically equal to the compiled kernel (e.g. E[x^2] - E[x]^2) cancels here.
@@ -999,14 +1031,28 @@ def replay(rep):
             bad = ref.get('exc') != got.get('exc')
             print('replay oracle:', f'reference {ref.get("exc", "baseline")} vs {got.get("exc", "baseline")}')
             return 1 if bad else 0
-        s = 0.0
-        for t in range(3):
-            pert = out[0]['oracle'][job['id']].get(f'pert{t}') or {}
-            s = max(s, reldev(ref['baseline'], pert.get('baseline', ref['baseline']), spread=True) or 0.0)
-        dev = reldev(ref['baseline'], got['baseline'], spread=True)
-        tol = tolerance(job, 'baseline', s)
-        print(f'replay oracle: relative deviation of the baseline {dev:.3e} (allowance {tol:.1e}, sensitivity {s:.1e})')
-        return 1 if (dev is None or (dev > tol and GAIN * s <= ILL)) else 0
+        bad = 0
+        for k in sorted(ref):
+            if job.get('baseline_only') and k != 'baseline':
+                continue
+            if k == 'n_tol':
+                if ref[k] != got.get(k):
+                    print(f'replay oracle: {ref[k]} recorded iterations in the reference configuration, {got.get(k)} in the other')
+                    bad = 1
+                continue
+            sk = 0.0
+            for t in range(3):
+                pert = out[0]['oracle'][job['id']].get(f'pert{t}') or {}
+                dv = reldev(ref[k], pert.get(k, ref[k]), spread=(k == 'baseline'))
+                sk = max(sk, float('inf') if dv is None else dv)
+            dev = reldev(ref[k], got.get(k, []), spread=(k == 'baseline'))
+            tol = tolerance(job, k, sk)
+            if dev is None or (dev > tol and GAIN * sk <= ILL):
+                print(f'replay oracle: {k} deviates from the reference configuration by {dev} (allowance {tol:.1e}, sensitivity {sk:.1e})')
+                bad = 1
+        if not bad:
+            print('replay oracle: every output agrees with the reference configuration within its allowance')
+        return bad
     if kind == 'capture':
         c = {'id': 'r', 'method': case['method'], 'kw': case['kw'], 'y': case['y'], 'arrays': case['arrays'], 'bs_list': BS,
              'ncalls': 2 if case['method'] == 'jbcd' else 1}
